@@ -12,6 +12,7 @@
 (*                             orelse consisting of one If; <<>> = none)   *)
 (*     Ret(e)                  return e                                    *)
 (*   and, JUST OUTSIDE what MxlPy's translator supports (it must refuse):  *)
+(*     AnnAssign(x, e)         x: float = e  (binds like x = e)            *)
 (*     Chain(names, e)         x1 = x2 = ... = e  (e evaluated once, all   *)
 (*                             targets bound)                              *)
 (*     Aug(op, x, e)           x op= e       (op \in BinOps)               *)
@@ -53,6 +54,8 @@ EXTENDS Expr
 Assign(x, e)          == [k |-> "assign", name |-> x, e |-> e]
 Ret(e)                == [k |-> "ret", e |-> e]
 If(t, body, orelse)   == [k |-> "if", e |-> t, body |-> body, orelse |-> orelse]
+\* x: float = e  -- an annotated assignment binds like a plain one (same tag; the field ann only tells the renderer)
+AnnAssign(x, e)       == [k |-> "assign", name |-> x, e |-> e, ann |-> TRUE]
 Chain(names, e)       == [k |-> "chain", names |-> names, e |-> e]
 Aug(op, x, e)         == [k |-> "aug", name |-> x, op |-> op, e |-> e]
 While(t, body)        == [k |-> "while", e |-> t, body |-> body]
